@@ -26,7 +26,10 @@ import prims_common as pc
 NV = 3
 # majority-vote teams are saved under the wta id on trees without the fix
 # "fix: a majority-vote team classifier is saved under the winner-takes-all id ..." (findings/C08.json)
-CHECK_MV_ROUNDTRIP = os.environ.get("C08_MV_ROUNDTRIP", "0") == "1"
+CHECK_MV_ROUNDTRIP = os.environ.get("C08_MV_ROUNDTRIP", "1") == "1"
+# damaged model streams fed to serialize::lambda::load (D cases): needs the loader fixes of findings/C08.json
+# (branch wt2b-c08) in the tree; default off until they are in /repo, then make "1" the default
+CHECK_DAMAGED = os.environ.get("C08_DAMAGED", "0") == "1"
 WORD_RE = re.compile(r"^[A-Za-z_][A-Za-z_0-9]*$")
 
 
@@ -284,6 +287,10 @@ def gen_cases(ck):
     for combo in COMBOS_T:
         for _ in range(nt):
             lines.append(case_line("T", gen_header(rng, combo)))
+    if CHECK_DAMAGED:
+        for combo in COMBOS_T:
+            for _ in range(1 if not ck.thorough else 12):
+                lines.append(case_line("D", gen_header(rng, combo)))
     for combo in COMBOS_H:
         for _ in range(nh):
             c = gen_header(rng, combo, for_history=True)
@@ -619,7 +626,7 @@ def run(ck):
     mlines, midx = [], []
     for k, (l, o) in enumerate(zip(lines, hout)):
         ot, rt = split_out(o or "")
-        if ot is not None:
+        if ot is not None and not l.startswith("D"):
             ml = l + " O " + " ".join(ot)
             if l.startswith("T") and " mv " not in l[:20]:
                 st = typed_tokens(parse_T_result(rt))
@@ -645,9 +652,32 @@ def run(ck):
             rep = crashes.get(k, "")
             what = "heap-use-after-free" if "heap-use-after-free" in rep else (
                 "leak" if "LeakSanitizer" in rep or "detected memory leaks" in rep else "sanitizer-report")
+            dl = [x for x in rep.splitlines() if x.startswith("D-")]
+            if c["kind"] == "D":
+                ck.add_violation("damaged-load:%s:%s" % (c["scheme"] + "/" + c["comp"], what),
+                                 "%s: damaged model stream variant %s: %s in serialize::lambda::load or in the loaded model"
+                                 % (c["scheme"] + "/" + c["comp"], dl[-1] if dl else "?", what),
+                                 {"cases": [line], "variant": dl[-1] if dl else None, "sanitizer": rep[-2500:]})
+                continue
             ck.add_violation("%s:%s:%s" % ("history" if c["kind"] == "H" else "predict", c["scheme"] + "/" + c["comp"], what),
                              "%s/%s model: %s while running the case" % (c["scheme"], c["comp"], what),
                              {"cases": [line], "impl": ho, "sanitizer": rep[-2500:]})
+            continue
+        if c["kind"] == "D":
+            # documented outcomes of serialize::lambda::load on a damaged stream: a model, nullptr, or
+            # exception::data_format -- and a model that loaded and says is_valid() answers queries
+            t = ho.split()
+            ck.nontriv(("D", c["scheme"], c["comp"], hash(line) % 100000))
+            if "other" in t and int(t[t.index("other") + 1]) > 0:
+                first = t[t.index("other") + 2]
+                combo2 = c["scheme"] + "/" + c["comp"]
+                if c["comp"] == "mv" and "length_error" in first:
+                    key = "damaged-load:mv-team:classes-not-validated"
+                else:
+                    key = "damaged-load:%s:other-exception" % combo2
+                ck.add_violation(key, "%s: a damaged model stream (%s) makes serialize::lambda::load / the loaded model throw "
+                                      "something else than exception::data_format" % (combo2, first),
+                                 {"cases": [line], "impl": ho[:500]})
             continue
         if ho.startswith("EXC") or ho.startswith("BADCASE"):
             ck.add_diff({"case": line}, mres.get(k), ho, what="harness could not run the case: " + ho[:200])
